@@ -72,7 +72,11 @@ func run(p *analysis.Pass) ([]Range, error) {
 					if !nolintContainsNilAway(comm.Text) {
 						continue
 					}
-					fromPos, toPos := pass.Fset.Position(node.Pos()), pass.Fset.Position(node.End())
+					// The conflicts are located by their physical positions (see
+					// [inference.primitivizer.toPosition] for why), so the ranges they are matched
+					// against must not be adjusted by "//line" directives either.
+					fromPos := pass.Fset.PositionFor(node.Pos(), false /* adjusted */)
+					toPos := pass.Fset.PositionFor(node.End(), false /* adjusted */)
 					ranges = append(ranges, Range{Filename: tokenhelper.RelToCwd(fromPos.Filename), From: fromPos.Line, To: toPos.Line})
 				}
 			}
